@@ -19,7 +19,7 @@ ASSUMPTIONS = ['vf.ref.wire transcribes RFC 4880 correctly (cross-checked by its
 MIN_COUNTERS = {'quick': {'newlen_enc': 70000, 'newlen_dec2': 8192, 'oldlen_dec': 60000, 'splen_dec2': 16000, 'mpi': 4000,
                           's2k_count': 256, 'time': 1000, 'partial': 50, 'growth': 30},
                 'thorough': {'newlen_enc': 70000, 'partial': 500}}
-BUDGET = {'quick': (150, 600), 'thorough': (1200, 3600)}
+BUDGET = {'quick': (600, 1500), 'thorough': (1200, 3600)}
 
 BOUNDS = sorted(set([0, 1, 190, 191, 192, 193, 255, 256, 8382, 8383, 8384, 8385, 16319, 16320, 16321, 65535, 65536, 65537] +
                     [(1 << k) + d for k in range(2, 33) for d in (-1, 0, 1) if 0 <= (1 << k) + d <= 0xFFFFFFFF]))
